@@ -61,7 +61,7 @@ CHAIN = cfgd(NS=1, NG=3, InitSBases='<-SB_One', InitRBases='<-RB_None3',
              RBaseChoices='<-RBaseChoices3s', MaxLive=2, MaxDepth=5)
 
 EXT = cfgd(NS=1, InitSBases='<-SB_One', PBases='<-PB_Tree4', Names='<-NamesE',
-           Muts='{"reg","unreg"}', RegKeys='<-RegKeysExt',
+           Muts='{"reg","unreg","relookup"}', RegKeys='<-RegKeysExt',
            LookKeys='<-LookKeysExt', MaxLive=4, MaxDepth=5)
 WATCH = cfgd(NS=3, InitSBases='<-SB_Three', Names='<-NamesE',
              Muts='{"reg","sub","specbases"}',
@@ -108,6 +108,14 @@ ANCESTOR = cfgd(NS=3, InitSBases='<-SB_Chain3', Names='<-NamesE',
                 RegKeys='<-RegKeysAnc', SubKeys='<-SubKeysAnc',
                 LookKeys='<-LookKeysAnc', SBaseChoices='<-SBaseChoicesAnc',
                 MaxLive=2, MaxDepth=5)
+# class declarations only: re-basing one onto / off another changes no
+# interface resolution order, but the looked-up order (__sro__) does change
+DECLS = cfgd(NS=2, InitSBases='<-SB_Chain2', Names='<-NamesE',
+             Muts='{"reg","sub","specbases"}',
+             Queries='{"lookup","lookupAll","subs"}',
+             RegKeys='<-RegKeysDecl', SubKeys='<-SubKeysDecl',
+             LookKeys='<-LookKeysDecl', SBaseChoices='<-SBaseChoicesCache',
+             MaxLive=2, MaxDepth=5)
 # the TOP of a three-registry chain gets (and loses) a base of its own
 TOPBASE = cfgd(NS=1, NG=4, InitSBases='<-SB_One',
                InitRBases='<-RB_Chain3Extra', Names='<-NamesE',
@@ -238,6 +246,8 @@ PLAN = {
             ('ancestor re-based d5 verify', 'edges',
              dict(ANCESTOR, Flavour='"verify"'),
              dict(sb='SB_Chain3', rb='RB_One')),
+            ('class declarations only d5 push', 'edges', DECLS,
+             dict(sb='SB_Chain2', rb='RB_One', all_impl=True)),
             ('entry points x cache d6 verify', 'edges',
              dict(EPCACHE, Flavour='"verify"'),
              dict(sb='SB_One', rb='RB_Two')),
@@ -415,6 +425,8 @@ def run_replay(build, v, pid, consts, opt, mode, cases, budget):
                 if opt.get('empty_spec'):
                     job['empty_spec'] = opt['empty_spec']
                     job['leaf_impl'] = False
+                if opt.get('all_impl'):
+                    job['all_impl'] = True
                 jobs.append((implv, job))
     for implv in ('c', 'py'):
         if opt.get('components') and flavour_of(consts) == 'push':
